@@ -465,7 +465,23 @@ func (x *Exec) call(fr *Frame, st *State, reach string, cc *ssa.CallCommon, ins 
 		na := x.fresh("alc", "Int")
 		x.emit(fmt.Sprintf("(assert (>= %s %s))", na, st.alc))
 		st.alc = na
-		return x.havocVal(rt, "dyn")
+		res := x.havocVal(rt, "dyn")
+		// assumed behaviour of user callbacks (A-user), stated in the contract of the enclosing function
+		if x.con != nil && fr.top {
+			for _, cl := range x.con.Callback {
+				cc2 := x.newCtx(st, topFrame.entry, x.con.Pkg, reach, fr)
+				x.bindFrameNames(fr, ins.Block(), cc2)
+				x.bindBlockNames(fr, ins.Block(), cc2)
+				f, err := cc2.formula(cl.E)
+				if err != nil {
+					x.fatal("%s:%d: callback ensures: %v", cl.File, cl.Line, err)
+					continue
+				}
+				x.assume(reach, f)
+				x.assumed["user callback assumed to satisfy: "+cl.Text] = true
+			}
+		}
+		return res
 	}
 	key := funcKey(callee)
 	if v, ok := x.libModel(fr, st, reach, callee, key, args, ins, rt); ok {
@@ -473,7 +489,10 @@ func (x *Exec) call(fr *Frame, st *State, reach string, cc *ssa.CallCommon, ins 
 	}
 	con := x.eng.contracts[key]
 	if con != nil && !con.Inline {
-		return x.applyContract(fr, st, reach, con, callee, callee.Signature, args, ins, rt, key, nil)
+		x.curClo = clo
+		v := x.applyContract(fr, st, reach, con, callee, callee.Signature, args, ins, rt, key, nil)
+		x.curClo = nil
+		return v
 	}
 	// inline small loop-free callees (accessors, helpers)
 	if x.inlinable(callee, fr.depth) || (con != nil && con.Inline) {
@@ -572,7 +591,9 @@ func (x *Exec) applyContract(fr *Frame, st *State, reach string, con *Contract, 
 		x.bindSig(c, sig, pnames[1:], args[1:], con, callee, nil)
 	} else {
 		x.bindSig(c, sig, pnames, args, con, callee, nil)
+		x.bindClosureVars(c, callee, x.curClo, pre)
 	}
+	closureVals := x.curClo
 	short := key[strings.LastIndex(key, ".")+1:]
 	site := x.posText(ins.Pos())
 	// preconditions
@@ -594,12 +615,22 @@ func (x *Exec) applyContract(fr *Frame, st *State, reach string, con *Contract, 
 			x.fatal("%s:%d: panics-when of %s: %v", cl.File, cl.Line, key, err)
 			continue
 		}
-		// the caller must avoid the callee's panic condition unless its own contract allows panicking here
-		if x.panicAllowed(fr, st, reach, f) {
-			x.assume(reach, not(f))
-			continue
+		// the caller must avoid the callee's panic condition unless its own contract allows a panic
+		// under a condition (evaluated at entry) that covers it
+		allowed := "false"
+		if x.con != nil && len(x.con.Panics) > 0 && topFrame != nil {
+			pc := x.newCtx(topFrame.entry, topFrame.entry, x.con.Pkg, reach, fr)
+			x.bindTop(pc, nil)
+			var ps []string
+			for _, pcl := range x.con.Panics {
+				pf, err := pc.formula(pcl.E)
+				if err == nil {
+					ps = append(ps, pf)
+				}
+			}
+			allowed = or(ps...)
 		}
-		x.oblige(x.oblName(fr, "nopanic", ins.Pos(), short+".panics"+fmt.Sprint(k)), "nopanic", reach, not(f), cl, site+": "+key+" panics when "+cl.Text)
+		x.oblige(x.oblName(fr, "nopanic", ins.Pos(), short+".panics"+fmt.Sprint(k)), "nopanic", reach, implies(f, allowed), cl, site+": "+key+" panics when "+cl.Text+" (must be excluded, or covered by this function's own 'panics when')")
 		x.assume(reach, not(f))
 	}
 	// frame
@@ -607,8 +638,35 @@ func (x *Exec) applyContract(fr *Frame, st *State, reach string, con *Contract, 
 	if err != nil {
 		x.fatal("%v", err)
 	}
+	defer func() {
+		// ghost call counter: calls(key, receiver)
+		idx := "0"
+		if len(args) > 0 {
+			if sc, ok := args[0].(Sc); ok && sc.S == "Int" {
+				idx = sc.T
+			} else if iv, ok := args[0].(IfaceV); ok {
+				idx = iv.Ref
+			}
+		}
+		name := callCounter(key)
+		h := x.heap(st, name, "(Array Int Int)")
+		x.setHeap(st, name, "(Array Int Int)", sx("store", h, idx, sx("+", sx("select", h, idx), "1")))
+	}()
 	if has {
 		x.applyMods(st, mods)
+		// call counters of everything the callee may call (transitively) are part of its frame
+		if callee != nil && callee.Blocks != nil {
+			var cn []string
+			for n := range x.eng.eff.funcEffects(callee) {
+				if strings.HasPrefix(n, "G$calls$") {
+					cn = append(cn, n)
+				}
+			}
+			sort.Strings(cn)
+			for _, n := range cn {
+				x.havocHeapForce(st, n)
+			}
+		}
 		na := x.fresh("alc", "Int")
 		x.emit(fmt.Sprintf("(assert (>= %s %s))", na, st.alc))
 		st.alc = na
@@ -638,6 +696,7 @@ func (x *Exec) applyContract(fr *Frame, st *State, reach string, con *Contract, 
 		x.bindSig(c2, sig, pnames[1:], args[1:], con, callee, rvals)
 	} else {
 		x.bindSig(c2, sig, pnames, args, con, callee, rvals)
+		x.bindClosureVars(c2, callee, closureVals, st)
 	}
 	for _, cl := range con.Ensures {
 		f, err := c2.formula(cl.E)
@@ -741,7 +800,8 @@ func (x *Exec) appendBuiltin(fr *Frame, st *State, reach string, cc *ssa.CallCom
 	x.emit(fmt.Sprintf("(assert (> %s %s))", narr, st.alc))
 	st.alc = narr
 	ncap := x.fresh("apcap", "Int")
-	x.assume("true", sx(">=", ncap, newLen))
+	x.assume("true", sx("and", sx(">=", ncap, newLen), sx("<=", ncap, "9223372036854775807")))
+	x.assume(reach, sx("<=", newLen, "9223372036854775807")) // a longer slice cannot exist (append would panic: out of memory)
 	res := SliceV{ite(fits, s.Arr, narr), ite(fits, s.Off, "0"), newLen, ite(fits, s.Cap, ncap)}
 	res = x.nameVal("ap", res).(SliceV)
 	if kindOf(et) == KStruct || kindOf(et) == KArray {
@@ -907,6 +967,29 @@ func (x *Exec) bindTop(c *SpecCtx, results []Val) {
 	for _, fv := range x.fn.FreeVars {
 		v := fr.vals[fv]
 		// free variables are pointers to captured cells: expose the cell content under the variable's name
+		if sc, ok := v.(Sc); ok && sc.Loc != nil {
+			et := derefType(fv.Type())
+			if et != nil && kindOf(et) != KStruct {
+				c.env[fv.Name()] = envEntry{x.load(c.cur, sc.Loc, et), et}
+				continue
+			}
+		}
+		c.env[fv.Name()] = envEntry{v, fv.Type()}
+	}
+}
+
+func callCounter(key string) string { return "G$calls$" + sanitize(key) }
+
+// bindClosureVars exposes the captured variables of a closure (cells) under their source names.
+func (x *Exec) bindClosureVars(c *SpecCtx, callee *ssa.Function, clo []Val, st *State) {
+	if callee == nil || len(clo) == 0 {
+		return
+	}
+	for i, fv := range callee.FreeVars {
+		if i >= len(clo) {
+			break
+		}
+		v := clo[i]
 		if sc, ok := v.(Sc); ok && sc.Loc != nil {
 			et := derefType(fv.Type())
 			if et != nil && kindOf(et) != KStruct {
